@@ -13,7 +13,7 @@ CHECKS = {
                 text='The 22 repository-side node constructors that the grammar actions call (fields, member classification by kind in source order, parent links, constructor-name and operator validation) are proved against contracts for all arguments. Exact structural checks of the live grammar graph (results-name dataflow, flag/terminal table, end anchor). Bounded round trip: for seeded derivations of a reference grammar written from DOCS.md the abstracted real parse tree must equal the written tree. The pyparsing matcher and the class-body lambdas are outside the proof.',
                 note=BOUNDED_NOTE, technique='contract-based deductive verification (Python-ast -> SMT VCs, z3+cvc5) of the functions listed in the evidence; bounded stand-in (real output read back / reference oracle on a stated scope) for the rest; structural inspection of the grammar objects built by the real code'),
     'C02': dict(cat='other', design='7/C02',
-                text='instantiate_args_list / instantiate_return_type proved to keep argument names, default text, order and the pair/single shape (over an assumed type-level contract of instantiate_type, which is out of reach: deep copy, str.replace). Bounded: every type of every instantiated member on the scope (random + sanitised + curated scenarios with look-alike identifiers, This::X, multi-instantiation templates, every shape of the structured scope) is compared, through the emitted bindings, with capture-free reference substitution.',
+                text='instantiate_args_list / instantiate_return_type proved to keep argument names, default text, order and the pair/single shape, is_scoped_template proved to recognise a scoped use by its first :: component (over an assumed type-level + frame contract of instantiate_type: a frame proof was attempted and withdrawn, DESIGN 11.5). Bounded: every type of every instantiated member on the scope (random + sanitised + curated scenarios with look-alike identifiers, This::X, multi-instantiation templates, every shape of the structured scope) is compared, through the emitted bindings, with capture-free reference substitution.',
                 note=BOUNDED_NOTE, technique='contract-based deductive verification (Python-ast -> SMT VCs, z3+cvc5) of the functions listed in the evidence; bounded stand-in (real output read back / reference oracle on a stated scope) for the rest'),
     'C03': dict(cat='other', design='7/C03', text='Leaf emitters (constructors, dunders, properties, operators, variables, enums, class-scoped enums, forward-declaration classes, module-variable / qualification helpers) proved equal to their denotations for all inputs; _wrap_method / wrap_methods / wrap_instantiated_class proved as conditional contracts (no method named print, serialization and documentation off) and monitored at run time otherwise; presence, names, submodule placement, top-namespace and ignore filters decided on a bounded scope by reading real output back and comparing with the bindings declared by the reference semantics.',
                 note=BOUNDED_NOTE, technique=PY_TECH),
@@ -45,8 +45,8 @@ CHECKS = {
     'C12': dict(cat='other', design='7/C12', text='Exact: every composite grammar element carries the comment-ignore expression and skips white space; terminals spanning two tokens are the listed ones. '
                      'Bounded: seeded re-layouts (blanks, newlines, block/line comments with braces, semicolons, quotes) give equal trees and byte-identical wrappers.',
                 note=BOUNDED_NOTE, technique='structural inspection of the grammar graph + bounded differential re-layout'),
-    'C13': dict(cat='other', design='7/C13', text='Bounded relational check on real output: list restriction, permutation, parameter renaming and repeated wrapping leave per-instantiation bindings unchanged.',
-                note=BOUNDED_NOTE, technique='bounded stand-in: relational comparison of real outputs of related inputs'),
+    'C13': dict(cat='other', design='7/C13', text='instantiate_args_list / instantiate_return_type proved to change no object that existed before (given the assumed frame contract of instantiate_type). Bounded relational check on real output: list restriction, permutation, parameter renaming and repeated wrapping leave per-instantiation bindings unchanged.',
+                note=BOUNDED_NOTE, technique='contract-based deductive verification of the two signature instantiators (frame); bounded stand-in: relational comparison of real outputs of related inputs'),
     'C14': dict(cat='other', design='7/C14', text='Exact effect contracts (syntactic): only the declared entry points have I/O / environment / clock / random / id-hash / set-iteration effects and every open() names '
                      'an encoding. Bounded: byte-identical output trees across processes, hash seeds, working directories, LC_ALL=C, earlier calls on one wrapper object and earlier runs. '
                      'Concurrent schedules are not explored.', note=BOUNDED_NOTE, technique='effect contracts checked structurally + bounded repeatability scenarios'),
